@@ -834,6 +834,15 @@ func (s *SessionState) onVPPSessionCreated(swIfIndex uint32, err error) {
 	s.mu.Lock()
 
 	if err != nil {
+		// The add was queued while the session was alive. If the session has been
+		// torn down since (PADT, dead peer, reject, link end) there is nothing left
+		// to tear down: running terminate() again would publish Released and delete
+		// the dataplane session a second time and release addresses that may belong
+		// to another subscriber by now.
+		if s.Phase == ppp.PhaseTerminate {
+			s.mu.Unlock()
+			return
+		}
 		snap := s.snapshotForTeardown()
 		s.mu.Unlock()
 		s.component.logger.Error("Failed to program PPPoE session in VPP, tearing down",
